@@ -172,6 +172,10 @@ fn main() {
             println!("no divergence found up to seed {n}");
             std::process::exit(1);
         }
+        "selftest-reach" => {
+            let verif = std::env::var("VERIF_DIR").unwrap_or_else(|_| "/verif".into());
+            std::process::exit(selftest::reach(&verif));
+        }
         "selftest-determinism" => {
             let seed: u64 = std::env::var("VERIF_SEED").ok().and_then(|v| v.parse().ok()).unwrap_or(20260925);
             let verif = std::env::var("VERIF_DIR").unwrap_or_else(|_| "/verif".into());
